@@ -228,7 +228,7 @@ Definition check (c : sexp) : sexp :=
                             v_mismatch "step-not-enabled-in-model" [of_nat i; SSym (label_name lab); label_arg lab]
                         | inl s =>
                             match st_phase s with
-                            | PEnded => v_ok (classes items tr m ++ sym_class l "gmp" ++
+                            | PEnded => v_ok (classes items tr m ++ sym_class l "gmp" ++ sym_class l "ws" ++
                                               (if snd acc then ["variant-no-loop-after-chained"] else []))
                             | _ => v_mismatch "history-does-not-end" []
                             end
